@@ -87,10 +87,14 @@ impl State {
         for (key, counter) in counters {
             let (value, points_flushed) = counter.flush();
 
-            // If the counter is already idle, and no updates were made since the last time the counter was flushed,
-            // then we've already emitted our zero value and no longer need to emit updates until the counter is active
-            // again.
-            if points_flushed == 0 {
+            // If the counter is already idle, and its value did not change since the last time the counter was
+            // flushed, then we've already emitted our zero value and no longer need to emit updates until the counter
+            // is active again.
+            //
+            // Idleness is decided by the delta we are about to send, not by the number of updates: an update that is
+            // still in flight may already be part of the delta while its update count is not visible yet, and
+            // dropping a non-zero delta here would lose it for good.
+            if value == 0 {
                 if flush_state.is_counter_idle(&key) {
                     continue;
                 }
